@@ -113,72 +113,82 @@ def case_generator(name, opts, dtype, backend):
                 # the SAME array objects are passed for every pattern (re-filled in place): a kernel object
                 # is called repeatedly with identical scratch / output arrays, as the simulators do
                 views, bases = {}, {}
-                for pattern in PATTERNS:
-                    A = {}
-                    for k, (arg, kind, role) in enumerate(sp["arrays"]):
-                        shp = shape if kind in ("s", "s+", "c") else (d, *shape)
-                        vals = _values(shp, k, kind, pattern, sp.get("input_scale", 1.0))
-                        if kind == "c":
-                            vals = vals + 1j * _values(shp, k + 7, kind, pattern)
-                        if arg not in views:
-                            v, base = _bind(vals, cdt if kind == "c" else real_t, binding)
-                            views[arg], bases[arg] = v, base
-                        else:
-                            v = views[arg]
-                            v[...] = vals.astype(v.dtype)
-                        if role == "out":
-                            _sentinel(v)
-                        A[arg] = v.astype(np.complex128 if kind == "c" else np.float64).copy()
-                    base_pre = {a: b.copy() for a, b in bases.items()}
-                    view_pre = {a: v.copy() for a, v in views.items()}
-                    for b in closed.values():
-                        b[...] = np.nan  # scratch the generator closed over: contents must not matter
-                    fn(**views, **sp["scalars"])
-                    trans += 1
-                    expected = sp["ref"](A, sp["scalars"], aux)
-                    for arg, kind, role in sp["arrays"]:
-                        states += 1
-                        got = views[arg]
-                        ctx = dict(generator=name, opts=opts, dtype=dtype, shape=shape, binding=binding, pattern=pattern, argument=arg, backend=backend)
-                        # the parent array around a strided / offset view must be untouched
-                        if binding in ("strided", "offset"):
-                            b_now = bases[arg].copy()
-                            b_was = base_pre[arg].copy()
-                            sel = tuple(slice(None, None, 2) for _ in got.shape) if binding == "strided" else tuple(slice(1, 1 + s) for s in got.shape)
-                            b_now[sel] = 0
-                            b_was[sel] = 0
-                            if b_now.tobytes() != b_was.tobytes():
-                                fails.append(Fail(f"{tag}:wrote-outside-view", "kernel wrote outside the array view it was given", **ctx))
-                        if arg not in expected:
-                            if got.tobytes() != view_pre[arg].tobytes():
-                                fails.append(Fail(f"{tag}:input-modified", "an input array was modified", **ctx))
-                            continue
-                        exp, mask = expected[arg]
-                        mask = np.broadcast_to(mask, got.shape)
-                        if np.ascontiguousarray(got[~mask]).tobytes() != np.ascontiguousarray(view_pre[arg][~mask]).tobytes():
-                            fails.append(Fail(f"{tag}:outside-region", "cells outside the documented output region were modified", cells=int((got[~mask] != view_pre[arg][~mask]).sum()), **ctx))
-                        g = got[mask].astype(np.complex128 if kind == "c" else np.float64)
-                        e = np.asarray(exp)[mask]
-                        in_mag = max([float(np.abs(A[a_]).max()) for a_, _k, r_ in sp["arrays"] if r_ != "out"] + [0.0])
-                        mag = 1.0 + in_mag**2 + float(np.abs(e).max() if e.size else 0)
-                        tol = 64 * eps * mag
-                        if not np.isfinite(tol):
-                            from harness.interp import HarnessError
-
-                            raise HarnessError("C13: non-finite tolerance")
-                        if g.size and pattern == "dense" and binding == "contiguous":
-                            # negative control: the comparison must see a 0.1 % error in one cell
-                            e_bad = e.copy()
-                            e_bad[e_bad.size // 2] += 1e-3 * (1 + abs(e_bad[e_bad.size // 2]))
-                            if np.all(np.isfinite(g)) and not np.abs(g - e_bad).max() > tol:
+                for pi, pattern in enumerate(PATTERNS):
+                    # scalar-argument alphabet (value x type of the object passed): all of it on the dense /
+                    # contiguous combination, cycled over the others
+                    if not sp["scalars"]:
+                        variants = [kernelspec.SCALAR_VARIANTS[0]]
+                    elif pattern == "dense" and binding == "contiguous":
+                        variants = kernelspec.SCALAR_VARIANTS
+                    else:
+                        variants = [kernelspec.SCALAR_VARIANTS[(pi + 3 * BINDINGS.index(binding)) % len(kernelspec.SCALAR_VARIANTS)]]
+                    for variant in variants:
+                        s_pass, s_mean = kernelspec.scalar_variant(sp["scalars"], variant, real_t)
+                        A = {}
+                        for k, (arg, kind, role) in enumerate(sp["arrays"]):
+                            shp = shape if kind in ("s", "s+", "c") else (d, *shape)
+                            vals = _values(shp, k, kind, pattern, sp.get("input_scale", 1.0))
+                            if kind == "c":
+                                vals = vals + 1j * _values(shp, k + 7, kind, pattern)
+                            if arg not in views:
+                                v, base = _bind(vals, cdt if kind == "c" else real_t, binding)
+                                views[arg], bases[arg] = v, base
+                            else:
+                                v = views[arg]
+                                v[...] = vals.astype(v.dtype)
+                            if role == "out":
+                                _sentinel(v)
+                            A[arg] = v.astype(np.complex128 if kind == "c" else np.float64).copy()
+                        base_pre = {a: b.copy() for a, b in bases.items()}
+                        view_pre = {a: v.copy() for a, v in views.items()}
+                        for b in closed.values():
+                            b[...] = np.nan  # scratch the generator closed over: contents must not matter
+                        fn(**views, **s_pass)
+                        trans += 1
+                        expected = sp["ref"](A, s_mean, aux)
+                        for arg, kind, role in sp["arrays"]:
+                            states += 1
+                            got = views[arg]
+                            ctx = dict(generator=name, opts=opts, dtype=dtype, shape=shape, binding=binding, pattern=pattern, scalars=variant, argument=arg, backend=backend)
+                            # the parent array around a strided / offset view must be untouched
+                            if binding in ("strided", "offset"):
+                                b_now = bases[arg].copy()
+                                b_was = base_pre[arg].copy()
+                                sel = tuple(slice(None, None, 2) for _ in got.shape) if binding == "strided" else tuple(slice(1, 1 + s) for s in got.shape)
+                                b_now[sel] = 0
+                                b_was[sel] = 0
+                                if b_now.tobytes() != b_was.tobytes():
+                                    fails.append(Fail(f"{tag}:wrote-outside-view", "kernel wrote outside the array view it was given", **ctx))
+                            if arg not in expected:
+                                if got.tobytes() != view_pre[arg].tobytes():
+                                    fails.append(Fail(f"{tag}:input-modified", "an input array was modified", **ctx))
+                                continue
+                            exp, mask = expected[arg]
+                            mask = np.broadcast_to(mask, got.shape)
+                            if np.ascontiguousarray(got[~mask]).tobytes() != np.ascontiguousarray(view_pre[arg][~mask]).tobytes():
+                                fails.append(Fail(f"{tag}:outside-region", "cells outside the documented output region were modified", cells=int((got[~mask] != view_pre[arg][~mask]).sum()), **ctx))
+                            g = got[mask].astype(np.complex128 if kind == "c" else np.float64)
+                            e = np.asarray(exp)[mask]
+                            in_mag = max([float(np.abs(A[a_]).max()) for a_, _k, r_ in sp["arrays"] if r_ != "out"] + [0.0])
+                            mag = 1.0 + in_mag**2 + float(np.abs(e).max() if e.size else 0)
+                            tol = 64 * eps * mag
+                            if not np.isfinite(tol):
                                 from harness.interp import HarnessError
 
-                                raise HarnessError(f"C13 control: tolerance {tol} cannot see a 0.1% error ({name})")
-                        if g.size and (not np.all(np.isfinite(g)) or np.abs(g - e).max() > tol):
-                            bad = ~np.isfinite(g) | (np.abs(g - e) > tol)
-                            i = int(np.argmax(bad))
-                            fails.append(Fail(f"{tag}:value", "kernel output differs from its documented closed-form value on its output region", got=complex(g[i]) if kind == "c" else float(g[i]), want=complex(e[i]) if kind == "c" else float(e[i]), tol=tol, **ctx))
-                        outcomes += int(mask.any())
+                                raise HarnessError("C13: non-finite tolerance")
+                            if g.size and pattern == "dense" and binding == "contiguous":
+                                # negative control: the comparison must see a 0.1 % error in one cell
+                                e_bad = e.copy()
+                                e_bad[e_bad.size // 2] += 1e-3 * (1 + abs(e_bad[e_bad.size // 2]))
+                                if np.all(np.isfinite(g)) and not np.abs(g - e_bad).max() > tol:
+                                    from harness.interp import HarnessError
+
+                                    raise HarnessError(f"C13 control: tolerance {tol} cannot see a 0.1% error ({name})")
+                            if g.size and (not np.all(np.isfinite(g)) or np.abs(g - e).max() > tol):
+                                bad = ~np.isfinite(g) | (np.abs(g - e) > tol)
+                                i = int(np.argmax(bad))
+                                fails.append(Fail(f"{tag}:value", "kernel output differs from its documented closed-form value on its output region", got=complex(g[i]) if kind == "c" else float(g[i]), want=complex(e[i]) if kind == "c" else float(e[i]), tol=tol, **ctx))
+                            outcomes += int(mask.any())
     finally:
         shim.set_backend("interp")
     return CaseResult(fails=fails, states=states, transitions=trans, traces=trans, outcome=f"{tag}:{dtype}:{backend}:{outcomes > 0}")
@@ -198,6 +208,6 @@ def run(r) -> None:
                 cases.append(dict(name=name, opts=opts, dtype=dt, backend="jit"))
     cases.sort(key=lambda c: (c["backend"] != "jit", "3d" not in c["name"]))
     r.run_cases("generators", "generator", cases)
-    r.bounds = {"generators_x_options": len(registry.entries()), "dtypes": 2, "shapes_per_generator": 4, "bindings": BINDINGS, "patterns": PATTERNS, "backends": ["interp"] if quick else ["interp", "jit"]}
+    r.bounds = {"generators_x_options": len(registry.entries()), "dtypes": 2, "shapes_per_generator": 4, "bindings": BINDINGS, "patterns": PATTERNS, "scalar_arguments": kernelspec.SCALAR_VARIANTS, "backends": ["interp"] if quick else ["interp", "jit"]}
     r.extra["rule"] = "one state per (generator option tuple, dtype, shape, binding, pattern, array argument): value on the documented region vs closed form, raw bytes everywhere else"
     r.assumptions = ["quick tier executes the captured kernels on the interpreter (bound to the generated code by conformance replay, incl. strided bindings); thorough tier repeats on the JIT back end (4-D kernels: interpreter only)"]
